@@ -5,7 +5,7 @@
    (see Node/Matching.v); for Truncate it is only discharged when the follower holds an entry of the requested
    term (c03_truncate_contract_partial) - the general case is the open finding c03_truncate_one_round_refuted. *)
 From Coq Require Import List ZArith.
-From Oxia.Node Require Import Model Lemmas Fence Matching Refuted.
+From Oxia.Node Require Import Model Lemmas Fence Matching Refuted TruncSorted.
 From Oxia.Cluster Require Model Invariants Preservation.
 Import ListNotations.
 Open Scope Z_scope.
@@ -36,6 +36,14 @@ Theorem c03_truncate_contract_partial : forall llog w T h eh,
   matches llog (upto (trunc_target w (length w) h) w) T.
 Proof. exact trunc_contract_from_log_matching. Qed.
 Print Assumptions c03_truncate_contract_partial.
+
+(* On a well-formed log whose entry terms are non-decreasing (every log real leaders produce) the repaired Truncate keeps
+   exactly the entries whose id is <= the requested id.  (Without term-sortedness the backward scan only gives a prefix.) *)
+Theorem c03_truncate_keeps_exactly_le_when_sorted : forall w h, wal_ok w -> term_sorted w ->
+  forall e, In e w ->
+    ((e_off e <=? trunc_target w (length w) h) = true <-> eid_leb (eid_of e) h = true).
+Proof. exact truncate_keeps_exactly_le_when_sorted. Qed.
+Print Assumptions c03_truncate_keeps_exactly_le_when_sorted.
 
 (* Truncate is refused, and changes nothing, unless the follower is FENCED (both model variants). *)
 Theorem c03_truncate_refused_unless_fenced : forall c n t h, n_role n = RFollower -> n_status n <> Fenced ->
